@@ -19,7 +19,7 @@ func init() {
 	register(&Property{
 		Meta: report.Meta{
 			Property:    "C17",
-			Explanation: "Structural rules on package container: (R1) variant pipelines — for each of the 16 From*/To* functions the set of stages reachable in the package's call graph (base64 = encoding/base64.NewDecoder/NewEncoder, car = readCar/writeCar, cbor = the ipld.DecodeStreaming / EncodeStreaming call of FromCborReader / ToCborWriter) must be exactly what the API name announces, byte and stream variants of a format must agree, byte variants wrap their argument in a reader / collect a buffer, and the base64 variants hand the base64 wrapper of the caller's stream to the format core; (R2) single door — entries are stored into a container.Reader only in addToken, under the CID and token returned by a successful token.FromSealed(data); (R3) all-or-nothing — in both readers an iteration continues only if the iterator reported no error and addToken succeeded, an aborted iteration leaves a non-nil error, and success is returned only after exhaustion; (R4) CAR integrity — readBlock succeeds only if Prefix(cid).Sum(data) equals the stored CID, for the cid/data split of the same section; (R5) the writers iterate the whole map and write cid ++ data (CAR) / every data (CBOR). (R6) pool typestate: no object is put back into a sync.Pool (directly or by a deferred call) while the function returns it, a view of it, or a function literal that captured it; a positive example under lint/testdata/canary/pool must be flagged on every run. Set equality of contents is a runtime-value clause and is not decided. (R2) every MapUpdate on a container.Reader, in whatever function, stores results #0 / #1 of one token.FromSealed call on a path that knows it succeeded. In every function that stores into a Reader, a path through a call of token.FromSealed without the fact that its error is nil ends in a failure return or panic. (R6) no Return of a library function has a map-typed result that is loaded from a package-level variable of the module.",
+			Explanation: "Structural rules on package container: (R1) variant pipelines — for each of the 16 From*/To* functions the set of stages reachable in the package's call graph (base64 = encoding/base64.NewDecoder/NewEncoder, car = readCar/writeCar, cbor = the ipld.DecodeStreaming / EncodeStreaming call of FromCborReader / ToCborWriter) must be exactly what the API name announces, byte and stream variants of a format must agree, byte variants wrap their argument in a reader / collect a buffer, and the base64 variants hand the base64 wrapper of the caller's stream to the format core; (R2) single door — entries are stored into a container.Reader only in addToken, under the CID and token returned by a successful token.FromSealed(data); (R3) all-or-nothing — in both readers an iteration continues only if the iterator reported no error and addToken succeeded, an aborted iteration leaves a non-nil error, and success is returned only after exhaustion; (R4) CAR integrity — readBlock succeeds only if Prefix(cid).Sum(data) equals the stored CID, for the cid/data split of the same section; (R5) the writers iterate the whole map and write cid ++ data (CAR) / every data (CBOR). (R6) pool typestate: no object is put back into a sync.Pool (directly or by a deferred call) while the function returns it, a view of it, or a function literal that captured it; a positive example under lint/testdata/canary/pool must be flagged on every run. Set equality of contents is a runtime-value clause and is not decided. (R2) every MapUpdate on a container.Reader, in whatever function, stores results #0 / #1 of one token.FromSealed call on a path that knows it succeeded. In every function that stores into a Reader, a path through a call of token.FromSealed without the fact that its error is nil ends in a failure return or panic. (R6) no Return of a library function has a map-typed result that is loaded from a package-level variable of the module. (R2) every success path of (Reader).GetToken returns lookup(recv, arg0)#0 under the fact that the key is present; GetDelegation returns an assertion of that lookup or of GetToken(recv, arg0). (R3) in every function that stores into a Reader, no success path contains a call of token.FromSealed without a MapUpdate of the Reader; no function reachable from the eight From* readers calls time.Now / Since / Until.",
 			Assumptions: []string{"encoding/base64, bufio, go-cid and go-ipld-prime behave as documented", "range-over-func protocol of the Go compiler"},
 			Trusted:     []string{"encoding/base64", "go-cid", "go-ipld-prime", "golang.org/x/tools/go/ssa v0.29.0"},
 			NotDecided:  []string{"set equality of written and read contents (runtime values)", "behaviour of the CBOR / base64 codecs"},
@@ -30,14 +30,16 @@ func init() {
 
 func runC17(x *Ctx) {
 	x.C.Rule("C17.R1", "variant pipelines match the API names; byte/stream variants agree", 24)
-	x.C.Rule("C17.R2", "entries enter a Reader only through FromSealed; iterators hand out key and value of one step", 3)
-	x.C.Rule("C17.R3", "all-or-nothing reading", 8)
+	x.C.Rule("C17.R2", "entries enter a Reader only through FromSealed; iterators hand out key and value of one step; a getter hands out the entry stored under the CID asked for", 5)
+	x.C.Rule("C17.R3", "all-or-nothing reading: every token read is stored, whatever the time of day", 10)
 	x.C.Rule("C17.R4", "CAR block integrity", 3)
 	x.C.Rule("C17.R5", "writers cover the whole map and report every failed write", 4)
 
 	variantPipelines(x)
 	singleDoor(x)
+	gettersLookUpTheirKey(x)
 	allOrNothing(x)
+	doorsStoreOnSuccess(x)
 	carIntegrity(x)
 	writersCover(x)
 	x.C.Rule("C17.R6", "readers do not share state across calls: nothing is released to a pool while a returned iterator still uses it; no shared map is handed out", 3)
